@@ -205,7 +205,10 @@ def compare(exp, obs, check_doc=True):
             # parameter by parameter: whitespace inside a quoted or bracket parameter belongs to the parameter
             want = [p for p in list(e["params"]) + (["**kwargs"] if e["kwargs"] else []) if p != ""]
             got = rstobs.split_sig(o["rawsig"])[1]
-            if got is not None and got != want:
+            # (a strip pattern may remove the quotes around a parameter with inner blanks: such a parameter cannot be
+            # told from several in the rendered line; the whole-line comparison above still applies)
+            bare_blank = any(re.search(r"\s", p) and p[:1] not in ('"', "[") for p in want)
+            if got is not None and got != want and not bare_blank:
                 msgs.append(f"signature: {where} parameters as written {want!r}, shown {got!r}")
         if check_doc and rstobs.strip_blank(e["doc"]) and not rstobs.contains_run(o["doc"], rstobs.strip_blank(e["doc"])):
             msgs.append(f"doc: {where} doc text missing from its block: {o['doc']!r}")
